@@ -33,6 +33,13 @@ EXTERNAL_BASES: Dict[str, List[str]] = {
 }
 
 
+# methods that external base classes define themselves (they win over repo classes later in the MRO)
+EXTERNAL_METHODS: Dict[str, Tuple[str, ...]] = {
+    "lark.Transformer": ("transform", "__default__", "__default_token__", "__mul__"),
+    "lark.visitors.Transformer": ("transform", "__default__", "__default_token__", "__mul__"),
+}
+
+
 @dataclass
 class FuncDef:
     qualname: str
@@ -388,6 +395,8 @@ class SrcModel:
         for cn in self.mro(cls.qualname):
             c = self.classes.get(cn)
             if c is None:
+                if name in EXTERNAL_METHODS.get(cn, ()):
+                    return ("external", cn, None)
                 continue
             in_m, in_a = name in c.methods, name in c.assigns
             if in_m and in_a:
